@@ -132,7 +132,11 @@ WELL_FORMED_AHB = ["Muss", "X", "u", "k", "Muss [1]", "muss[1]u[2]", "Muss[1] So
 MALFORMED = ["", " ", "\t\n", "[", "]", "[]", "[1", "1]", "[1]]", "([1]", "[1])", "()", "[1] U", "U [1] U", "[1] U U [2]", "[1] N [2]", "[a]", "[1.5]",
              "[P]", "[1P2]", "[1P0..0]", "[1P..2]", "[UB4]", "[ub1]", "[UB1P]", "foo", "Muss [1", "Muss [1]U", "Muss ([1]", "X[1])", "Muss ([1] Soll [2])",
              "Muss [1] Soll", "Muss Kann", " Muss[1]", "Mus[2]", "Muss[1] X[2]", "X[1] Muss[2]", "Muss [1] Soll [2]X", "Muss []", "Musss[1]", "XX[1]",
-             "Muss [1] Kann ", "[1] Muss", "Muss[1]Kann[", "Muss [2]U[3] Soll ([1] Kann [4]", "[1]\x00", "[١]", "M uss[1]"]
+             "Muss [1] Kann ", "[1] Muss", "Muss[1]Kann[", "Muss [2]U[3] Soll ([1] Kann [4]", "[1]\x00", "[١]", "M uss[1]",
+             # whitespace that Python's str.strip()/\s know but the grammars do not ignore
+             "Muss\u00a0[1]", "Muss [1]\u2003", "Muss\u3000[1] U [2]", "[1]\u00a0U [2]", "Muss [1]\x0b", "Muss [1]\x1c", "Muss [1]\x85U [2]", "Muss [1]\u2028", "\u00a0[1]",
+             # no bracket at all / case of the package and time condition letters
+             "Muss 1", "Muss ()", "X U", "Soll UB1", "Muss 1P", "[1p]", "[ub1]", "Muss [17]U[uB3]", "[1p0..1]"]
 
 
 def _ref_accepts(text: str) -> bool:
